@@ -208,13 +208,16 @@ fn c10_cleanup() {
     }
     // the two keys of interest sit below or above the band (by choice); the responsible
     // range is a free 256-bit value outside the band, so every relation range-vs-key is the solver's
+    // (they are really written: validated put, disk write, completion -- so they also sit in the record cache)
     let sym_keys: Vec<Key> = (0..n_sym).map(|i| key(i as u8)).collect();
     for (i, k) in sym_keys.iter().enumerate() {
         let high = choice(2) == 1;
         let h = if high { ruint_pow2(201) + ruint::aliases::U256::from(i as u64) } else { ruint::aliases::U256::from(10 + i as u64) };
         env::set_hash(k.as_ref(), SymU::konst_u256(h));
-        store.mark_as_stored(k.clone(), RecordType::Chunk);
+        let _ = w.driver.arm_put_local_record(chunk_record(k, 0));
+        w.settle();
     }
+    let store = w.driver.node_store();
     let has_range = choice(2) == 1;
     let range = SymU::<256>::fresh("range");
     if has_range {
@@ -242,6 +245,25 @@ fn c10_cleanup() {
             check("cleanup:removed_only_outside_range", range.sle(dist_of(store, k)).0);
         }
     }
+    // what clean-up removed is gone for readers too (cache, file), and storing the same bytes again stores them
+    let removed_written: Vec<Key> = removed.iter().filter(|k| sym_keys.contains(k)).cloned().collect();
+    w.settle(); // the files are deleted by background tasks
+    for k in &removed_written {
+        cover("removed_a_written_record");
+        let got = w.driver.store().get(k).map(|c| c.into_owned().value);
+        check_bool("cleanup:removed_record_is_not_readable", got.is_none());
+        check_bool("cleanup:removed_record_has_no_file", !env::fs::exists(file_of(k)));
+    }
+    if let Some(k) = removed_written.first() {
+        // (widen the range first, so that the record is wanted again)
+        w.driver.node_store().responsible_distance_range = None;
+        let r = w.driver.arm_put_local_record(chunk_record(k, 0));
+        w.settle();
+        check_bool("cleanup:record_stored_again_after_cleanup_is_held", r.is_ok() && w.driver.node_store().records.contains_key(k) && env::fs::exists(file_of(k)));
+        let _ = w.driver.store().remove(k);
+        w.settle();
+    }
+    let store = w.driver.node_store();
     // index consistency on the symbolic keys and a few fillers (checking all 1.6k fillers is redundant)
     check_bool("post/J:index_sizes_equal", store.records.len() == store.records_by_distance.len());
     for k in sym_keys.iter().chain(filler_keys.iter().take(3)) {
